@@ -29,36 +29,92 @@ pub fn sweep<F>(rep: &mut Report, sub: &str, n: u64, f: F)
 where
     F: Fn(u64, &mut Local) + Sync,
 {
+    sweep_named(rep, sub, n, f, |i| vec![format!("case-index:{i}")])
+}
+
+/// Like `sweep`, with a function that names case `i` (used only when the watchdog has to report a hang).
+/// Watchdog: a case that runs longer than the limit is reported as a violation of the no-hang clause with that
+/// case as the replay; the stuck thread cannot be stopped, so the run ends there (never called exhaustive).
+pub fn sweep_named<F, G>(rep: &mut Report, sub: &str, n: u64, f: F, args_of: G)
+where
+    F: Fn(u64, &mut Local) + Sync,
+    G: Fn(u64) -> Vec<String>,
+{
     let t0 = Instant::now();
     let nthreads = threads().max(1);
     // chunking depends on n only => deterministic merge order and sample choice
     let chunk = (n / 512).clamp(1, 1 << 20);
     let nchunks = n.div_ceil(chunk);
+    let nworkers = nthreads.min(nchunks as usize).max(1);
     let next = AtomicU64::new(0);
     let results: Mutex<Vec<Option<Local>>> = Mutex::new((0..nchunks).map(|_| None).collect());
     let capped = AtomicBool::new(false);
     let deadline = rep.deadline;
+    let hang_limit_ms: u64 = std::env::var("HMC_HANG_LIMIT_S").ok().and_then(|s| s.parse().ok()).unwrap_or(if rep.quick() { 10 } else { 30 }) * 1000;
+    // per worker: current case index (u64::MAX = idle)
+    let cur: Vec<AtomicU64> = (0..nworkers).map(|_| AtomicU64::new(u64::MAX)).collect();
+    let done = AtomicUsize::new(0);
+    let mut hang: Option<u64> = None;
     std::thread::scope(|s| {
-        for _ in 0..nthreads.min(nchunks as usize).max(1) {
-            s.spawn(|| loop {
-                let c = next.fetch_add(1, Ordering::Relaxed);
-                if c >= nchunks {
-                    break;
-                }
-                if let Some(d) = deadline {
-                    if Instant::now() > d {
-                        capped.store(true, Ordering::Relaxed);
+        for w in 0..nworkers {
+            let (next, results, capped, cur, done, f) = (&next, &results, &capped, &cur, &done, &f);
+            s.spawn(move || {
+                loop {
+                    let c = next.fetch_add(1, Ordering::Relaxed);
+                    if c >= nchunks {
                         break;
                     }
+                    if let Some(d) = deadline {
+                        if Instant::now() > d {
+                            capped.store(true, Ordering::Relaxed);
+                            break;
+                        }
+                    }
+                    let mut l = Local::new();
+                    let lo = c * chunk;
+                    let hi = ((c + 1) * chunk).min(n);
+                    for i in lo..hi {
+                        cur[w].store(i, Ordering::Relaxed);
+                        f(i, &mut l);
+                    }
+                    cur[w].store(u64::MAX, Ordering::Relaxed);
+                    results.lock().unwrap()[c as usize] = Some(l);
                 }
-                let mut l = Local::new();
-                let lo = c * chunk;
-                let hi = ((c + 1) * chunk).min(n);
-                for i in lo..hi {
-                    f(i, &mut l);
-                }
-                results.lock().unwrap()[c as usize] = Some(l);
+                done.fetch_add(1, Ordering::Release);
             });
+        }
+        // watchdog loop (this thread)
+        let mut last_seen: Vec<(u64, u64)> = vec![(u64::MAX, 0); nworkers];
+        while done.load(Ordering::Acquire) < nworkers {
+            std::thread::sleep(std::time::Duration::from_millis(if t0.elapsed().as_millis() < 200 { 1 } else { 50 }));
+            let now = t0.elapsed().as_millis() as u64;
+            for w in 0..nworkers {
+                let i = cur[w].load(Ordering::Relaxed);
+                if i == u64::MAX {
+                    last_seen[w] = (u64::MAX, now);
+                    continue;
+                }
+                if last_seen[w].0 != i {
+                    last_seen[w] = (i, now);
+                } else if now - last_seen[w].1 > hang_limit_ms {
+                    hang = Some(i);
+                }
+            }
+            if let Some(i) = hang {
+                // report and end the process: the stuck worker cannot be cancelled
+                let mut total = Local::new();
+                for l in results.lock().unwrap().iter_mut() {
+                    if let Some(l) = l.take() {
+                        total.merge(l);
+                    }
+                }
+                total.viol(sub, "hang".into(), args_of(i), format!("returns within {} s", hang_limit_ms / 1000), "still running (watchdog)".into());
+                let mut r = std::mem::replace(rep, Report::new("-", "quick"));
+                r.absorb(sub, n, total, t0.elapsed().as_secs_f64(), false);
+                r.cap_note = Some(format!("sub-check {sub} ended by the watchdog: case {i} did not return; later sub-checks were not run"));
+                let code = r.finish();
+                std::process::exit(code);
+            }
         }
     });
     let mut total = Local::new();
